@@ -102,15 +102,21 @@ impl Prop for P20 {
                 str_to_json(&s)
             })
             .collect();
-        let lp: Vec<String> = vec!["a".into(), "b c".into(), "é".into(), the_r.clone(), "*".into(), "x y  z".into(), "$(w)".into(), "-n".into(), "".into(), "0".into(), "q".into(), "t ".into(), "u\t".into()];
+        // lines are bytes: also bytes that are not valid UTF-8 (a Latin-1 name, a lone continuation byte)
+        let mut lp: Vec<Vec<u8>> = ["a", "b c", "é", "*", "x y  z", "$(w)", "-n", "", "0", "q", "t ", "u\t"].iter().map(|s| s.as_bytes().to_vec()).collect();
+        lp.push(the_r.as_bytes().to_vec());
+        lp.push(vec![b'c', b'a', b'f', 0xe9]);
+        lp.push(vec![0xff, 0xfe]);
+        lp.push(vec![0xa0]);
         let nlines = rng.below(6);
         let lines: Vec<Value> = (0..nlines)
             .map(|_| {
-                let mut s = String::new();
+                let mut s: Vec<u8> = vec![];
                 for _ in 0..rng.below(3) {
-                    let p: &String = rng.pick(&lp[..]); s.push_str(p);
+                    let p: &Vec<u8> = rng.pick(&lp[..]);
+                    s.extend(p);
                 }
-                str_to_json(&s)
+                bytes_to_json(&s)
             })
             .collect();
         json!({"opts": opts, "init": init, "lines": lines, "final_nl": rng.chance(3, 4)})
